@@ -1,4 +1,4 @@
-\* behaviours for the virtual-time natmap harness: T = 2 units, DNS timeout = 3 units (one unit = 17 s / 3)
+\* behaviours for the virtual-time natmap harness: T = 2 units, DNS timeout = 4 units (one unit = 17 s / 4)
 SPECIFICATION GenSpec
 CONSTANTS
   Clients = {1, 2, 3}
@@ -15,7 +15,7 @@ CONSTANTS
   RpAlpha <- GenRpVirt
   Sync = TRUE
   T = 2
-  DNST = 3
+  DNST = 4
   Ticks = {1, 2}
   MaxNow = 12
   MaxDg = 10
